@@ -162,7 +162,23 @@ func describe(ti, oi int, op *Op) string {
 
 // lookupMatches judges an observed Lookup against one state.
 func lookupMatches(op *Op, res *OpRes, st state) (bool, string) {
-	want, ext := model.Lookup(op.Name, st.exts)
+	cands := model.Lookups(op.Name, st.exts)
+	why := ""
+	for _, c := range cands {
+		ok, w := lookupMatchesOne(res, c)
+		if ok {
+			return true, w
+		}
+		if why != "" {
+			why += " or "
+		}
+		why += w
+	}
+	return false, why
+}
+
+func lookupMatchesOne(res *OpRes, c model.Candidate) (bool, string) {
+	want, ext := c.Res, c.Ext
 	if res.R.Key() != want.Key() {
 		return false, want.Key()
 	}
